@@ -46,7 +46,7 @@ struct Handles : Profile {
     {
         return {"stale-rejected", "wrongkind-rejected", "never-rejected", "double-release-rejected", "close-refused-with-aids", "nested-open",
                 "upgrade-open", "foreign-rejected", "teardown", "identity-checked", "shadow-run-compared", "wrongkind-hlevel",
-                "stale-extra-call", "wrongkind-extra-call", "never-extra-call", "aid-on-special-element"};
+                "stale-extra-call", "wrongkind-extra-call", "never-extra-call", "aid-on-special-element", "badopen-refused"};
     }
 
     Plan generate(Rng &rng, bool thorough, uint64_t) override
@@ -56,8 +56,8 @@ struct Handles : Profile {
         Rng r  = rng.sub(2);
         int nops = (int)r.range(30, thorough ? 160 : 120);
         static const std::vector<int> w     = {/*hopen*/ 8, /*acquire*/ 30, /*release*/ 22, /*check*/ 8, /*stale*/ 14, /*wrongkind*/ 8, /*never*/ 4,
-                                               /*closebusy*/ 4, /*foreign*/ 3, /*teardown*/ 2, /*use*/ 10};
-        static const char            *names[] = {"hopen", "acquire", "release", "check", "stale", "wrongkind", "never", "closebusy", "foreign", "teardown", "use"};
+                                               /*closebusy*/ 4, /*foreign*/ 3, /*teardown*/ 2, /*use*/ 10, /*badopen*/ 3};
+        static const char            *names[] = {"hopen", "acquire", "release", "check", "stale", "wrongkind", "never", "closebusy", "foreign", "teardown", "use", "badopen"};
         p.ops.push_back(mkop(0, "hopen", {0, 0}));
         for (int i = 0; i < nops; i++) {
             int k = r.weighted(w);
@@ -80,6 +80,9 @@ struct Handles : Profile {
                     break;
                 case 6:
                     p.ops.push_back(mkop(0, names[k], {(int64_t)r.below(NKIND), (int64_t)r.below(6), (int64_t)r.below(14)}));
+                    break;
+                case 11:
+                    p.ops.push_back(mkop(0, names[k], {(int64_t)r.below(6), (int64_t)r.below(2)}));
                     break;
                 default:
                     p.ops.push_back(mkop(0, names[k], {(int64_t)r.below(100)}));
@@ -480,7 +483,10 @@ struct Handles : Profile {
 
     // Shadow run: the same plan without its adversarial calls.  Those calls are all refused, so they must be no-ops for
     // everything durable: the files of the two runs are byte-identical at the end (atoms and ids are not on disk).
-    static bool adversarial(const std::string &k) { return k == "stale" || k == "wrongkind" || k == "never" || k == "foreign" || k == "closebusy"; }
+    static bool adversarial(const std::string &k)
+    {
+        return k == "stale" || k == "wrongkind" || k == "never" || k == "foreign" || k == "closebusy" || k == "badopen";
+    }
     Outcome judge(const Plan &plan, Exec &ex) override
     {
         Outcome full = ex.run(plan);
@@ -521,7 +527,7 @@ struct Handles : Profile {
             const std::string &k = o.kind;
             bool               done = true;
             bool               shadow = p.knob("shadow", 0) != 0;
-            if (shadow && adversarial(k) && k != "foreign")
+            if (shadow && adversarial(k) && k != "foreign" && k != "badopen")
                 done = false;
             else if (k == "hopen") {
                 int f = modn(o.arg(0), 2), mode = modn(o.arg(1), 3);
@@ -860,6 +866,65 @@ struct Handles : Profile {
                             ctx.fail("foreign-accepted", "foreign-accepted:vinsert", "Vinsert accepts a vgroup id that belongs to another file");
                         Vdetach(vg);
                         ctx.probe("foreign-rejected");
+                    }
+                }
+            }
+            else if (k == "badopen") {
+                // Opens that must fail -- a file that is not there, a file that is no HDF file -- return the failure value and
+                // leave nothing behind: no stream, no file record that a later open of the same name would pick up, and not
+                // a byte changed in the file that was refused.  (The junk file is scaffolding: the shadow run creates it too.)
+                const char *junk = "/sim/hd_junk.bin";
+                if (!simfs::disk().count(junk)) {
+                    FILE *jf = fopen(junk, "wb");
+                    if (jf) {
+                        static const char text[] = "this is not a hierarchical data file, just some text that is long enough to be read";
+                        fwrite(text, 1, sizeof text, jf);
+                        fclose(jf);
+                    }
+                }
+                if (!shadow) {
+                    int  which = modn(o.arg(0), 6), f = modn(o.arg(1), 2);
+                    int  streams = simfs::open_streams();
+                    bool refused = true;
+                    const char *what = "";
+                    switch (which) {
+                        case 0:
+                            what    = "Hopen(READ) of a file that does not exist";
+                            refused = Hopen("/sim/hd_missing.hdf", DFACC_READ, 0) == FAIL;
+                            break;
+                        case 1:
+                            what    = "SDstart(READ) of a file that does not exist";
+                            refused = SDstart("/sim/hd_missing.hdf", DFACC_READ) == FAIL;
+                            break;
+                        case 2:
+                            what    = "Hopen(READ) of a file that is no HDF file";
+                            refused = Hopen(junk, DFACC_READ, 0) == FAIL;
+                            break;
+                        case 3:
+                            what    = "Hopen(RDWR) of a file that is no HDF file";
+                            refused = Hopen(junk, DFACC_RDWR, 0) == FAIL;
+                            break;
+                        case 4:
+                            what    = "SDstart(RDWR) of a file that is no HDF file";
+                            refused = SDstart(junk, DFACC_RDWR) == FAIL;
+                            break;
+                        default:
+                            if (s.on_disk[f])
+                                done = false;
+                            else {
+                                what    = "Hopen(READ) of a path of this run before the file is created";
+                                refused = Hopen(path(f).c_str(), DFACC_READ, 0) == FAIL;
+                            }
+                            break;
+                    }
+                    if (done) {
+                        ctx.st.checks++;
+                        if (!refused)
+                            ctx.fail("badopen-accepted", strf("badopen-accepted:%d", which), strf("%s returned an id", what));
+                        if (simfs::open_streams() != streams)
+                            ctx.fail("retained-state", strf("retained-state:stream-after-badopen:%d", which),
+                                     strf("%s failed, but %d stdio streams are open where %d were before", what, simfs::open_streams(), streams));
+                        ctx.probe("badopen-refused");
                     }
                 }
             }
